@@ -227,7 +227,7 @@ func randomWalk(r *common.Rng, n, nops, steps int, latePersist bool, epilogue bo
 		}
 		x := r.Intn(100)
 		switch {
-		case x < 4 && nops > 0 && !latePersist:
+		case x < 1 && nops > 0 && !latePersist:
 			// a batch of committed entries applied back to back
 			if p.pending {
 				emit(i, "p")
